@@ -334,6 +334,8 @@ fn c08_alphabet(thorough: bool) -> Vec<Letter> {
         Step::Send(Spec::SwapFoci(1, SYNC)),
         Step::Send(Spec::SwapFoci(1, SYS_MISS)),
         Step::Send(Spec::SwapMod(1, SYNC)),
+        Step::Send(Spec::SwapGainStm(1, SYNC)),
+        Step::Send(Spec::SwapGainStm(1, SYS_MISS)),
         Step::Send(Spec::SwapMod(1, SYS_MISS)),
         Step::Clk(100_000_000),
         // gap 6: two datagrams in one frame, the way users change silencer and data together
@@ -491,6 +493,17 @@ pub fn run_c08(args: &Args) {
     run_seq_c08(&mut out, &[lax.clone(), foci(1, None, 0, 8), Step::Send(Spec::SwapFoci(1, SYS_MISS)), sil(10, 40, true)], "belief-missed-systime-swap");
     run_seq_c08(&mut out, &[lax.clone(), md(1, None, 0, 4), Step::Send(Spec::SwapMod(1, SYS_MISS)), sil(10, 40, true)], "belief-missed-systime-swapmod");
     run_seq_c08(&mut out, &[lax.clone(), foci(1, Some(SYS_MISS), 0, 8), sil(10, 40, true), Step::Clk(100_000_000), sil(5, 20, true)], "belief-missed-systime-write");
+    // the same for the two remaining swap kinds (every swap handler moves request and belief before the time check)
+    run_seq_c08(
+        &mut out,
+        &[lax.clone(), Step::Send(Spec::GainStm { mode: 0, seg: 1, tr: None, rep: 0, div: 8, size: 2, seed: 2 }), Step::Send(Spec::SwapGainStm(1, SYS_MISS)), sil(10, 40, true)],
+        "belief-missed-systime-swapgainstm",
+    );
+    run_seq_c08(
+        &mut out,
+        &[lax.clone(), Step::Send(Spec::GainStm { mode: 1, seg: 1, tr: None, rep: 1, div: 50, size: 3, seed: 3 }), sil(10, 40, true), Step::Send(Spec::SwapGainStm(1, SYS_MISS)), sil(60, 60, true)],
+        "belief-missed-systime-swapgainstm-then-stricter",
+    );
     // gap 4: the swap guards judge the *target* segment (idle data written without transition, strict steps above
     // its division, then the swap), for every swap kind
     run_seq_c08(&mut out, &[lax.clone(), md(1, None, 0xFFFF, 4), sil(5, 20, true), Step::Send(Spec::SwapMod(1, IMM))], "swap-guard-mod");
@@ -519,7 +532,7 @@ pub fn run_c08(args: &Args) {
         ],
         "F8d-accepted",
     );
-    out.count_n("corpus", 17);
+    out.count_n("corpus", 19);
 
     // bounded-exhaustive: lax start, then every sequence of two letters (both tiers) ...
     let n = alpha.len();
